@@ -10,7 +10,9 @@ def nKey : Nat := 4
 /-- canonical logical content of a world snapshot over the universe (used for hash numbering) -/
 structure CanonAcct where
   bal : Int
-  code : Option Nat
+  isContract : Bool
+  cur : Option Nat
+  next : Option (Nat × Bool)
   graph : Option (Nat × Nat)
   vals : List Nat
 deriving DecidableEq
@@ -18,7 +20,7 @@ abbrev Canon := List (Option CanonAcct)
 
 def canonOf (ws : WSnap) : Canon :=
   (List.range nAcct).map fun a =>
-    (absWSnap ws a).map fun d => (⟨d.bal, d.code, d.graph, (List.range nKey).map fun k => (d.get k).getD 0⟩ : CanonAcct)
+    (absWSnap ws a).map fun d => (⟨d.bal, d.isContract, d.cur, d.next, d.graph, (List.range nKey).map fun k => (d.get k).getD 0⟩ : CanonAcct)
 
 structure St where
   h : Hist
@@ -53,11 +55,18 @@ def showGraph : Option Graph → String
   | some (nh, g) => s!"{nh}/{g}"
   | none => "-"
 
+/-- "-" = not a contract; else c<current code or 0>n<next code or 0><p pending | r rejected | - none> -/
+def showContract (isC : Bool) (cur : Option Nat) (next : Option (Nat × Bool)) : String :=
+  if !isC then "-"
+  else s!"c{cur.getD 0}n" ++ (match next with
+    | some (c, rej) => s!"{c}" ++ (if rej then "r" else "p")
+    | none => "0-")
+
 def dumpAcct (d : Option AcctData) : String :=
   match d with
   | none => "-"
   | some d => s!"{d.bal}:" ++ ",".intercalate ((List.range nKey).map fun k => toString ((d.get k).getD 0))
-      ++ ":" ++ (match d.code with | some c => toString c | none => "-") ++ ":" ++ showGraph d.graph
+      ++ ":" ++ showContract d.isContract d.cur d.next ++ ":" ++ showGraph d.graph
 
 /-- `read i`: what GetAccountSnapshot of the world snapshot returns per account (nil → "-") -/
 def dump (ws : WSnap) : String :=
@@ -112,18 +121,38 @@ def step (s : St) (toks : List String) : St × String :=
   | ["deploy", a, c] => match a.toNat?, c.toNat? with
     | some a, some c => if okA a && c > 0 && c < 1000000 then (setW s (s.h.w.deploy a c), "ok") else (s, "bad-op")
     | _, _ => (s, "bad-op")
+  | ["init", a] => match a.toNat? with
+    | some a => if okA a then (setW s (s.h.w.initContract a), "ok") else (s, "bad-op")
+    | none => (s, "bad-op")
+  | ["dep", a, c] => match a.toNat?, c.toNat? with
+    | some a, some c => if okA a && c > 0 && c < 1000000 then (setW s (s.h.w.deployContract a c), "ok") else (s, "bad-op")
+    | _, _ => (s, "bad-op")
+  | ["acc", a, c] => match a.toNat?, c.toNat? with
+    | some a, some c =>
+      if okA a && c > 0 && c < 1000000 then
+        let (w, ok) := s.h.w.acceptContract a c
+        (setW s w, if ok then "ok" else "err")
+      else (s, "bad-op")
+    | _, _ => (s, "bad-op")
+  | ["rej", a, c] => match a.toNat?, c.toNat? with
+    | some a, some c =>
+      if okA a && c > 0 && c < 1000000 then
+        let (w, ok) := s.h.w.rejectContract a c
+        (setW s w, if ok then "ok" else "err")
+      else (s, "bad-op")
+    | _, _ => (s, "bad-op")
   | ["sog", a, nh, g] => match a.toNat?, nh.toNat?, g.toNat? with
     | some a, some nh, some g =>
       if okA a && nh < 1000 && g < 1000000 then
         let (_, st) := s.h.w.getAccountState a
-        (setW s (s.h.w.setObjGraph a nh g), if st.hdr.code.isSome then "ok" else "nocontract")
+        (setW s (s.h.w.setObjGraph a nh g), if st.hdr.cur.isSome then "ok" else "nocontract")
       else (s, "bad-op")
     | _, _, _ => (s, "bad-op")
   | ["gog", a] => match a.toNat? with
     | some a =>
       if okA a then
         let (w, st) := s.h.w.getAccountState a
-        (setW s w, if st.hdr.code.isSome then showGraph st.hdr.graph else "nocontract")
+        (setW s w, if st.hdr.cur.isSome then showGraph st.hdr.graph else "nocontract")
       else (s, "bad-op")
     | none => (s, "bad-op")
   | ["sgog", a] => match a.toNat? with
@@ -131,7 +160,7 @@ def step (s : St) (toks : List String) : St × String :=
       if okA a then
         let (w, sn) := s.h.w.getAccountSnapshot a
         (setW s w, match sn with
-          | some x => if x.hdr.code.isSome then showGraph x.hdr.graph else "nocontract"
+          | some x => if x.hdr.cur.isSome then showGraph x.hdr.graph else "nocontract"
           | none => "nocontract")
       else (s, "bad-op")
     | none => (s, "bad-op")
